@@ -59,7 +59,9 @@ def units():
     def bmod(pre, namesake=None, directed=None):
         def mk():
             UB = h.Bundle(name="UnitB")
-            if directed is None:
+            if directed == "one-leaf":
+                UB.add(h.Signal(name="x"))          # flattens into exactly as many signals as there were bundles
+            elif directed is None:
                 UB.add(h.Signal(name="x"))
                 UB.add(h.Signal(name="y", width=2))
             else:
@@ -70,8 +72,12 @@ def units():
             m.bb = UB(port=True) if directed != "flipped" else UB(port=True, flipped=True)
             if directed == "flipped-by-function":
                 m.bb = h.flipped(UB(port=True))
-            m.e = h.ExternalModule(name="U4b", port_list=[h.Inout(name="p"), h.Inout(name="q"), h.Inout(name="r", width=2),
-                                                        h.Inout(name="s")], desc="", domain="u")()(p=m.a, q=m.bb.x, r=m.bb.y, s=m.z)
+            if directed == "one-leaf":
+                m.e = h.ExternalModule(name="U3b", port_list=[h.Inout(name="p"), h.Inout(name="q"), h.Inout(name="s")], desc="",
+                                       domain="u")()(p=m.a, q=m.bb.x, s=m.z)
+            else:
+                m.e = h.ExternalModule(name="U4b", port_list=[h.Inout(name="p"), h.Inout(name="q"), h.Inout(name="r", width=2),
+                                                            h.Inout(name="s")], desc="", domain="u")()(p=m.a, q=m.bb.x, r=m.bb.y, s=m.z)
             if namesake == "port":
                 # a scalar port called like a flattened member of the bundle port: the member is exported as `bb_x_`
                 m.bb_x = h.Port()
@@ -113,6 +119,8 @@ def units():
             ("BModNPE", bmod(True, "port"), ["a", "z"]),
             ("BModD", bmod(False, None, "plain"), ["a", "z"]), ("BModF", bmod(False, None, "flipped"), ["a", "z"]),
             ("BModFE", bmod(True, None, "flipped"), ["a", "z"]), ("BModFF", bmod(False, None, "flipped-by-function"), ["a", "z"]),
+            ("BMod1", bmod(False, None, "one-leaf"), ["a", "z"]), ("BMod1E", bmod(True, None, "one-leaf"), ["a", "z"]),
+            ("BMod1H", bmod("failed-parent", None, "one-leaf"), ["a", "z"]),
             ("BModH", bmod("failed-parent"), ["a", "z"]), ("BModHF", bmod("failed-parent", None, "flipped"), ["a", "z"]),
             ("DirMod", dmod, ["i1", "i2", "o1", "o2", "io"]), ("DirExt", lambda: ED(), ["i1", "i2", "o1", "o2"]),
             ("EI", lambda: EI(), ["i", "o", "units"]), ("EF", lambda: EF(), ["a", "units_0", "units_1", "i_0"]),
